@@ -3,7 +3,7 @@
 (* universe, including every failing call (taken name, taken symbol, malformed symbol in any     *)
 (* argument position).  Transitions are exported for replay on the real library.                 *)
 EXTENDS Names, Json, IOUtils
-VARIABLE asked
+VARIABLES asked, dumped
 EnvInt(name, default) == IF name \in DOMAIN IOEnv THEN atoi(IOEnv[name]) ELSE default
 Depth == EnvInt("VERIF_DEPTH", 2)
 MCClasses == {"unit", "prefix", "dimension"}
@@ -34,13 +34,36 @@ DimStep ==
   \/ \E k \in known["dimension"], n \in N1 : NamesOf("dimension", k) = <<>> /\ Declare("dim-derive", "dimension", k, n, "", FALSE)
   \/ "d1" \notin known["dimension"] /\ Anon("dimension", "d1")
   \/ \E x \in N1 : <<"dimension", x>> \notin asked /\ Cardinality(asked) < 2 /\ Lookup("dimension", x)
-MCNext == TLCGet("level") <= Depth /\ (IF DimMode = 1 THEN DimStep ELSE Step) /\ asked' = (IF ev'.op = "lookup" THEN asked \cup {<<ev'.c, ev'.s>>} ELSE asked)
+\* VERIF_DIMS = 2: serialisation snapshots in the middle of naming.  Snap pickles an object as it is now; Restore loads
+\* the snapshot later.  Both are no-ops on every registry and on what every object reports - in particular a Restore
+\* must not REWIND a name or symbol that was declared after the snapshot was taken.  `dumped` holds what each snapshot
+\* captured, so that the order of snapshots and declarations is part of the state.
+Snap(c, k) == LET d == [c |-> c, k |-> k, n |-> NamesOf(c, k), s |-> SymsOf(c, k)] IN
+  /\ k \in known[c] /\ d \notin dumped /\ dumped' = dumped \cup {d}
+  /\ ev' = Ev("snap", c, k, "", ToString(Len(d.n) + Len(d.s)), "ok") /\ UNCHANGED regs
+Restore(d) ==
+  /\ ev' = Ev("restore", d.c, d.k, "", ToString(Len(d.n) + Len(d.s)), "ok") /\ UNCHANGED regs /\ UNCHANGED dumped
+SnapDecl ==
+  \/ Declare("define", "unit", "u1", "na", "sa", TRUE)
+  \/ \E n \in {"", "nb"}, s \in {"", "sb"} : (n # "" \/ s # "") /\ "u1" \in known["unit"] /\ Declare("alias", "unit", "u1", n, s, FALSE)
+  \/ "p7" \notin known["prefix"] /\ Anon("prefix", "p7")
+  \/ "p7" \in known["prefix"] /\ NamesOf("prefix", "p7") = <<>> /\ Declare("named", "prefix", "p7", "na", "sa", FALSE)
+  \/ "d1" \notin known["dimension"] /\ Anon("dimension", "d1")
+  \/ "d1" \in known["dimension"] /\ NamesOf("dimension", "d1") = <<>> /\ Declare("dim-derive", "dimension", "d1", "na", "", FALSE)
+SnapStep ==
+  \/ SnapDecl /\ dumped' = dumped
+  \/ \E c \in MCClasses : \E k \in known[c] : Cardinality(dumped) < 2 /\ Snap(c, k)
+  \/ \E d \in dumped : Restore(d)
+NoSnap == dumped' = dumped
+MCNext == TLCGet("level") <= Depth
+          /\ (IF DimMode = 1 THEN DimStep /\ NoSnap ELSE IF DimMode = 2 THEN SnapStep ELSE Step /\ NoSnap)
+          /\ asked' = (IF ev'.op = "lookup" THEN asked \cup {<<ev'.c, ev'.s>>} ELSE asked)
 \* lookups leave the registries alone, so (like C08's queries) they are part of the observed history: `asked`
 \* is kept in the VIEW through ev only for the step itself; sequences lookup -> declare -> lookup are reached
 \* because a lookup's successor state differs from its predecessor by the `asked` set
-View == <<regs, asked>>
-Abs == [known |-> known, names |-> names, syms |-> syms, byName |-> byName, bySym |-> bySym, asked |-> asked]
-MCInit == Init /\ asked = {}
+View == <<regs, asked, dumped>>
+Abs == [known |-> known, names |-> names, syms |-> syms, byName |-> byName, bySym |-> bySym, asked |-> asked, dumped |-> dumped]
+MCInit == Init /\ asked = {} /\ dumped = {}
 Export == PrintT("@@T " \o ToJson([from |-> Abs, ev |-> ev', to |-> Abs']))
 ExportInit == (ev.op = "init") => PrintT("@@I " \o ToJson(Abs))
 =============================================================================
